@@ -30,6 +30,8 @@ def gen_code(rng, lines=None, final_newline=None, crlf=False):
         k = rng.randrange(7)
         if k == 0:
             body = bytes(b for b in (rng.randrange(256) for _ in range(rng.randrange(0, 20))) if b not in (0x0a,))
+            if body[:1] == b'[':
+                body = b' ' + body          # (`--[[` / `--[=[` would open a block comment that never closes)
             out.append(b'--' + body)
         elif k == 1:
             q = rng.choice(b'"\'')
@@ -43,7 +45,7 @@ def gen_code(rng, lines=None, final_newline=None, crlf=False):
         elif k == 5:
             out.append(b'')
         else:
-            out.append(b'print("' + _strbody(rng, 0x22, 8) + b'")  // ' + _strbody(rng, 0, 5))
+            out.append(b'print("' + _strbody(rng, 0x22, 8) + b'")  // ' + _strbody(rng, 0, 5).replace(b'[[', b'[ ['))
     nl = b'\r\n' if crlf else b'\n'
     text = nl.join(out)
     if final_newline is None:
